@@ -180,3 +180,6 @@ for _pid in ('C01', 'C02'):
     PROPS[_pid]['assumptions'] = list(PROPS[_pid]['assumptions']) + ['native validation: the real SVD<double> iteration is run on every adj/* matrix with one numeric right-hand side and the svd assertions are evaluated in doubles (tolerance 1e-6); this is a concrete run per matrix, not a solver verdict']
 PROPS['C12']['e1'].append(dict(NET2D)); PROPS['C12']['must_reach'].append('net2d-xml')
 PROPS['C12']['bounds'] = PROPS['C12']['bounds'] + '; plane networks (net2d/xml): 4 networks with directions, distances, angles: adjusted points, orientation shifts (approximate and adjusted, wrapped to [0,400) gon), observed and adjusted directions / angles / distances, qrr, counts and sum of squares read back; errors below 1e-7 rad / 0.01 mm'
+
+PROPS['C06']['bounds'] = PROPS['C06']['bounds'] + '; resections through Acord2: three hand-made ones and a fixed family of 24 (thorough 60) pseudo-random two-angle resections in integer geometries (general position, constants compared numerically at 512 bits)'
+PROPS['C12']['bounds'] = PROPS['C12']['bounds'] + '; two of the plane networks also in the inconsistent frame "en"'
